@@ -314,10 +314,61 @@ func specOf(c Config, denom string) *AssetSpec {
 
 type MonC05 struct {
 	BaseMon
+	wiped map[[2]string]string // (validator, denom) whose validator shares a user's exit removed while other positions there kept value
 }
 
-func NewMonC05(r *Runner) *MonC05 { return &MonC05{BaseMon{r}} }
+func NewMonC05(r *Runner) *MonC05 { return &MonC05{BaseMon{r}, map[[2]string]string{}} }
 func (m *MonC05) Name() string    { return "C05" }
+
+// AfterTx: provenance of the zero-value state. The recorded finding zero-value-validator is about a
+// validator whose stake in an asset is worthless because it was slashed completely or is dust against a
+// huge total (its fraction of the asset has no 18-digit representation). An exit of one delegator that
+// removes ALL validator shares of (validator, asset) although the positions that stay behind are worth
+// more than 18-digit noise is another cause and is remembered here; a later division by zero on that
+// pair is then not matched with the recorded finding.
+func (m *MonC05) AfterTx(o *TxOutcome) {
+	if !o.Res.OK || (o.Step.K != "undelegate" && o.Step.K != "redelegate") {
+		return
+	}
+	den := o.Step.Den
+	v0, v1 := o.Pre.Vals[o.Val], o.Post.Vals[o.Val]
+	a1, ok := o.Post.Assets[den]
+	if v0 == nil || v1 == nil || !v0.HasInfo || !v1.HasInfo || !ok {
+		return
+	}
+	// value that stays behind on (validator, asset): the other delegators' positions and the actor's remainder
+	rest := new(big.Rat)
+	for _, pk := range o.Pre.DelOrder {
+		if pk.Val != o.Val || pk.Denom != den {
+			continue
+		}
+		v := o.Pre.Value(pk)
+		if pk.Del == o.Actor {
+			v = new(big.Rat).Sub(v, ratInt(o.Amount))
+			if v.Sign() < 0 {
+				v = new(big.Rat)
+			}
+		}
+		rest.Add(rest, v)
+	}
+	S1 := decAmount(v1.Info.TotalDelegatorShares, den)
+	if rest.Sign() > 0 && rest.Cmp(ratI64(1)) < 0 && !S1.TruncateInt().IsZero() {
+		m.R.Rep.Class("C05.sub-unit-remainder-after-exit")
+	}
+	if !decAmount(v0.Info.ValidatorShares, den).IsPositive() || !decAmount(v1.Info.ValidatorShares, den).IsZero() || S1.TruncateInt().IsZero() {
+		return
+	}
+	// 18-digit noise: the module clears the validator's shares when its remaining token value evaluates to 0
+	// with 18 digits (remaining fraction of the asset < 5e-19, or value < 5e-19); three orders of margin
+	noise := new(big.Rat).SetFrac(big.NewInt(1), new(big.Int).Exp(big.NewInt(10), big.NewInt(15), nil))
+	rel := new(big.Rat).Set(noise)
+	if a1.TotalTokens.IsPositive() {
+		rel.Mul(rel, ratInt(a1.TotalTokens))
+	}
+	if rest.Cmp(noise) > 0 && rest.Cmp(rel) > 0 {
+		m.wiped[[2]string{o.Val, den}] = fmt.Sprintf("the %s of %s%s by %s at step %d removed every validator share of (%s,%s) although the positions staying there were worth %s and hold %s delegator shares", o.Step.K, o.Amount, den, m.R.W.Name(o.Actor), o.Idx, m.R.W.Name(o.Val), den, ratStr(rest), S1)
+	}
+}
 
 // classify: recorded findings of C05 are identified by mechanism; anything else is a violation.
 func (m *MonC05) classify(op string, res TxResult, s *Snap, val, denom string, amount *big.Int) (string, string) {
@@ -334,6 +385,9 @@ func (m *MonC05) classify(op string, res TxResult, s *Snap, val, denom string, a
 		valTokensZero := a.TotalValidatorShares.IsZero() && a.TotalTokens.IsZero()
 		if !a.TotalValidatorShares.IsZero() {
 			valTokensZero = vs.Quo(a.TotalValidatorShares).Mul(math.LegacyNewDecFromInt(a.TotalTokens)).IsZero()
+		}
+		if why, bad := m.wiped[[2]string{val, denom}]; bad && vs.IsZero() && !S.TruncateInt().IsZero() {
+			return "!wiped", fmt.Sprintf("%s on %s/%s panics with division by zero, and not by the recorded mechanism (complete slash, or dust against a huge total): %s", op, m.R.W.Name(val), denom, why)
 		}
 		if !S.TruncateInt().IsZero() && valTokensZero {
 			return "zero-value-validator", fmt.Sprintf("%s on %s/%s panics with division by zero: the validator's stake in the asset is worth 0 (after a complete slash, or dust against a huge total) while %s delegator shares exist", op, m.R.W.Name(val), denom, S)
@@ -397,6 +451,10 @@ func (m *MonC05) sharePriceExploded(s *Snap, denom string) bool {
 func (m *MonC05) fail(idx int, op string, res TxResult, s *Snap, val, denom string, amount *big.Int) {
 	rep := m.R.Rep
 	cause, msg := m.classify(op, res, s, val, denom, amount)
+	if cause == "!wiped" {
+		rep.Violate("C05", "C05."+strings.Fields(op)[0], idx, "%s [%s]", msg, res.Stack)
+		return
+	}
 	if cause != "" {
 		rep.KnownFinding("C05", cause, "%s", msg)
 		rep.Class("C05.known." + cause)
